@@ -46,21 +46,42 @@ def run(ctx, rep):
     # ---- C12.d -------------------------------------------------------------------------------------
     CP = prog.find1(r"^rustic_core::commands::copy::copy$")
     cls = prog.closures_of(CP, recursive=False)
-    ft = [c for c in cls if any("callee" in t and re.search(r"has_tree$", callee(t)) for _, t in c.calls())]
-    fd = [c for c in cls if any("callee" in t and re.search(r"has_data$", callee(t)) for _, t in c.calls())]
-    rep.check("C12.d", "filters", len(ft) >= 1 and len(fd) >= 1, where=CP.loc(), what="copy has a tree filter (has_tree on the destination index) and a data filter (has_data)")
-    # the index the filters consult is the DESTINATION repository's
-    okdst = True
-    for c in ft + fd:
-        for bb, t in c.calls():
-            if "callee" in t and re.search(r"has_(tree|data)$", callee(t)):
-                e = flow.expr_of(c, t["args"][0])
-                nm = None
-                if e[0] == "path" and e[1] == ("arg", 1) and e[2] and e[2][0].isdigit():
-                    nm = upvar_name(c, int(e[2][0]))
-                if not (nm and "dest" in nm):
-                    okdst = False
-    rep.check("C12.d", "filters-use-destination-index", okdst, where=CP.loc(), what="both filters look blobs up in the destination repository's index")
+    # presence tests against an index, in copy itself or in its closures (filter closures or plain loops)
+    tests = {"has_tree": [], "has_data": []}
+    for b_ in [CP] + cls:
+        for bb, t in b_.calls():
+            if "callee" in t:
+                m_ = re.search(r"(has_tree|has_data)$", callee(t))
+                if m_:
+                    tests[m_.group(1)].append((b_, bb, t))
+    ft, fd = tests["has_tree"], tests["has_data"]
+    rep.check("C12.d", "filters", len(ft) >= 1 and len(fd) >= 1, where=CP.loc(), what="copy tests trees with has_tree and file contents with has_data before selecting them")
+
+    def parent_args(b_, operand):
+        """parameters of copy() the operand derives from (through the closure capture if b_ is a closure of copy)"""
+        pl = op_place(operand)
+        if pl is None:
+            return set()
+        if b_ is CP:
+            return set(flow.backward_slice(CP, pl)["args"])
+        e = flow.expr_of(b_, operand)
+        out = set()
+        if e[0] == "path" and e[1] == ("arg", 1) and e[2] and e[2][0].isdigit():
+            k = int(e[2][0])
+            for blk in CP.blocks:
+                for s_ in blk["s"]:
+                    if s_[0] == "=" and s_[2][0] == "agg" and s_[2][1][0] == "closure" and s_[2][1][1] == b_.path and k < len(s_[2][2]):
+                        cp_ = op_place(s_[2][2][k])
+                        if cp_:
+                            out |= set(flow.backward_slice(CP, cp_)["args"])
+        return out
+    # the index the tests consult is the DESTINATION repository's (parameter 2 of copy), never the source's (parameter 1)
+    okdst = bool(ft) and bool(fd)
+    for (b_, bb, t) in ft + fd:
+        pa = parent_args(b_, t["args"][0])
+        if not (2 in pa and 1 not in pa):
+            okdst = False
+    rep.check("C12.d", "filters-use-destination-index", okdst, where=CP.loc(), what="every has_tree/has_data test in copy looks the blob up in the destination repository's index (derived from `repo_dest` only)")
     # BlobCopier::new types and what feeds them
     news = [(bb, t) for bb, t in CP.calls() if "callee" in t and callee(t).endswith("blob::packer::BlobCopier::<BE>::new")]
     cbs = [(bb, t) for bb, t in CP.calls() if "callee" in t and callee(t).endswith("commands::copy::copy_blobs")]
@@ -104,6 +125,10 @@ def run(ctx, rep):
                     c = prog.bodies.get(d[4][1][1])
         # the closure calls the caller's cmp (an indirect call through the captured Fn) with (n1, n2) in order
         okm = c is not None and any(t["k"] == "call" and ("indirect" in t or re.search(r"ops::Fn(Mut|Once)?(<.*>)?(>)?::call(_mut|_once)?$", callee(t) if "callee" in t else "")) for _, t in c.calls())
+        if c is None:
+            # max_by(cmp): the caller's comparison (parameter 4) handed over directly
+            pl = op_place(mb[0][1]["args"][1]) if len(mb[0][1]["args"]) > 1 else None
+            okm = pl is not None and 4 in flow.backward_slice(MN, pl)["args"]
     rep.check("C12.e", "max-by-given-order", okm, where=MN.loc(), what="merge_nodes keeps the node that is maximal under the caller's ordering (Iterator::max_by(cmp))")
     mt = [(bb, t) for bb, t in MN.calls() if "callee" in t and callee(t).endswith("blob::tree::merge_trees")]
     oka = False
